@@ -288,10 +288,37 @@ pub fn build(spec: &InputSpec) -> Input {
     // points
     let pts: MultiPoint<f64> = match spec.family.as_str() {
         "cloud" => {
-            // small grid with duplicates and ties, or full floats
+            // small grid with duplicates and ties (optionally clipped to a flat-topped hexagon, a
+            // disc or a diamond: flat hull edges and symmetric candidates), or full floats
             let grid = rng.chance(2, 3);
             let span = 3 + (n as f64).sqrt() as i64;
-            MultiPoint::new((0..n.max(3)).map(|_| if grid { Point::new(rng.range(0, span) as f64, rng.range(0, span) as f64) } else { Point::new(rng.unit() * 50.0, rng.unit() * 50.0) }).collect())
+            let shape = rng.below(4);
+            let inside = |x: i64, y: i64| -> bool {
+                let (cx, cy, r) = (span as f64 / 2.0, span as f64 / 2.0, span as f64 / 2.0);
+                let (dx, dy) = ((x as f64 - cx).abs(), (y as f64 - cy).abs());
+                match shape {
+                    1 => dy <= r * 0.8 && dx <= r - dy * 0.5, // flat-topped hexagon
+                    2 => dx * dx + dy * dy <= r * r,           // disc
+                    3 => dx + dy <= r,                         // diamond
+                    _ => true,
+                }
+            };
+            MultiPoint::new(
+                (0..n.max(3))
+                    .map(|_| {
+                        if grid {
+                            loop {
+                                let (x, y) = (rng.range(0, span), rng.range(0, span));
+                                if inside(x, y) {
+                                    break Point::new(x as f64, y as f64);
+                                }
+                            }
+                        } else {
+                            Point::new(rng.unit() * 50.0, rng.unit() * 50.0)
+                        }
+                    })
+                    .collect(),
+            )
         }
         "mantissa" => MultiPoint::new((0..n).map(|_| Point::new(rng.unit() * 1000.0, rng.unit() * 1000.0)).collect()),
         _ => {
